@@ -759,7 +759,16 @@ impl Space for SchedSpace {
         let mut with_preemption = 0u64;
         let mut outcomes: BTreeMap<String, u64> = BTreeMap::new();
         let mut replay_checked = false;
+        // a case is a whole exploration; if it cannot be finished in its budget it is reported
+        // as capped (with what was covered), never as a verdict
+        let t0 = std::time::Instant::now();
+        let budget = std::time::Duration::from_secs(if self.thorough { 2400 } else { 150 });
+        let mut capped = false;
         while let Some(prefix) = stack.pop() {
+            if t0.elapsed() > budget {
+                capped = true;
+                break;
+            }
             let r = run_once(&sc, &prefix);
             let is_root = prefix.is_empty();
             // the default schedule is run by every shard (to enumerate the first deviations)
@@ -828,9 +837,9 @@ impl Space for SchedSpace {
         let has_err = outcomes.keys().any(|k| k.starts_with("Err"));
         Outcome {
             nontrivial: with_preemption > 0 && (outcomes.len() >= 2 || has_err),
-            class: format!("{} distinct outcome(s)", outcomes.len()),
+            class: if capped { format!("CAPPED after {} s: bound {bound} not completed", budget.as_secs()) } else { format!("{} distinct outcome(s)", outcomes.len()) },
             violations: vec![],
-            counters: vec![("executions", execs), ("executions_with_preemption", with_preemption)],
+            counters: vec![("executions", execs), ("executions_with_preemption", with_preemption), ("cases_stopped_at_time_budget", u64::from(capped))],
             sample: Some(json!({"scenario": sc.name(), "bound": bound, "executions": execs, "outcomes": outcomes})),
         }
     }
